@@ -204,7 +204,12 @@ fn main() {
     // a kind per record) or through one FormatWriter ("fmt"), read by a reader
     // set up by a random route and configured at random
     let has_root = |owner: &[u8], rtype: u16, rdata: &[u8]| owner == [0] || ([2u16, 5, 12, 39].contains(&rtype) && rdata == [0])
-        || (rtype == 15 && rdata.len() == 3);
+        || (rtype == 15 && rdata.len() == 3)
+        // further name-bearing types the generator produces (NSEC next name, SOA, SRV, RRSIG,
+        // SVCB / HTTPS targets, RP, MINFO, AFSDB, RT, KX, NAPTR): a root name may occur in their
+        // data, so inside zones they are never written through fmt::Display (single-record
+        // events keep doing so, where the deviation D_display_root_dot is accounted for)
+        || [47u16, 6, 33, 46, 64, 65, 17, 14, 18, 21, 36, 35].contains(&rtype);
     let n_zones = n / 4;
     let (mut zeq, mut zerr) = (0u64, 0u64);
     for _ in 0..n_zones {
